@@ -63,6 +63,7 @@ static void draw_faults(bool reads, bool writes) {
     f.eio = den("f.eio");
     f.eintr = den("f.eintr");
   }
+  f.eintr_close = den("f.eintr_close");
   if (writes) {
     f.short_write = den("f.short_write");
     f.enospc = den("f.enospc");
@@ -1006,6 +1007,8 @@ static void scen_scoped_fd() {
   const char* paths[3] = {"/sim/e/f0", "/sim/e/f1", "/sim/e/f2"};
   std::optional<phosg::scoped_fd> slot[3];
   int model[3] = {-2, -2, -2}; // -2: no object; -1: empty object; else fd held
+  vfs::world().faults = vfs::Faults();
+  vfs::world().faults.eintr_close = (uint32_t)pick({0, 4, 2}, "E.eintr_close");
   unsigned nops = 2 + choose(14, "E.nops");
   mark_nontrivial();
   auto newest_fd = []() { return vfs::world().next_fd - 1; };
@@ -1271,6 +1274,6 @@ int main(int argc, char** argv) {
   e.expected_probes = {"read_all_fd.saw_short_read", "read_all_fd.crossed_16k_block", "read_all_file.error_mid_stream", "read_all_file.crossed_16k_block",
       "fgets.line_longer_than_block", "fgets.line_longer_than_two_blocks", "fgets.line_exactly_block", "readx.threw_on_short", "save_file.threw_on_write_fault",
       "load_file.threw_on_read_fault", "unlink.threw_on_eacces", "scoped_fd.move_assign_over_open", "scoped_fd.failed_open", "poll.readd_existing", "poll.remove_present"};
-  e.expected_faults = {"short_read", "short_write", "EIO@read", "EINTR@read", "ENOSPC@write", "EINTR@write", "EINTR@poll", "EACCES@unlink", "EACCES@rmdir", "concurrent_delete", "ENOSPC@capacity"};
+  e.expected_faults = {"short_read", "short_write", "EIO@read", "EINTR@read", "ENOSPC@write", "EINTR@write", "EINTR@poll", "EACCES@unlink", "EACCES@rmdir", "concurrent_delete", "ENOSPC@capacity", "EINTR@close"};
   return driver_main(argc, argv, e);
 }
